@@ -24,7 +24,7 @@ EXPLANATION = (
     "resets it only when duplicates are allowed; S7 PBT's exploration writes only sampled or clipped-and-cast values. "
     "NOT decided: that model-based candidates decode into the domain (C07 numeric clauses).")
 
-FLOOR = {"S1": 4, "S2": 5, "S3": 4, "S4": 5, "S5": 5, "S6": 7, "S7": 2}
+FLOOR = {"S1": 4, "S2": 5, "S3": 6, "S4": 5, "S5": 5, "S6": 7, "S7": 2}
 
 
 def s1(ctx, rep):
@@ -187,6 +187,22 @@ def s3(ctx, rep):
         ok = ok and bool(adds) and cfg.path([s for s, l in cfg.succ[app[0][0]]], loop[0].id, deleted=set(adds), skip_labels=("exc",)) is None
     rep.put(ok, "S3", "guarded_by", "impute_points_to_evaluate: appended in input order, only if not seen, and recorded as seen", f, None, "",
             "duplicates among the initial configurations are not removed, or the order is not the given one")
+    # what is compared for 'seen' is the configuration that is appended (imputed and cast), not the user's raw entry
+    from ..engine import deref
+    if len(app) == 1:
+        appended = deref(f, app[0][1].args[0])
+        keys_ = [x for x in walk_shallow(f.node) if isinstance(x, ast.Call) and fn_name(x) == "_to_tuple" and x.args]
+        okk = len(keys_) >= 1 and all(U(deref(f, k_.args[0])) == U(appended) for k_ in keys_) and \
+            isinstance(appended, ast.Call) and fn_name(appended) == "_impute_default_config"
+        rep.put(okk, "S3", "agreement", "impute_points_to_evaluate: the duplicate test is made on the imputed configuration that is appended", f,
+                keys_[0] if keys_ else None, "", f"the key for the duplicate test is built from `{U(keys_[0].args[0]) if keys_ else '?'}`, the appended value is "
+                f"`{U(appended)[:60]}`: entries that become equal only after the mid-point rule / casting are both kept and the same "
+                "configuration is suggested twice")
+    tt = P.func("syne_tune.optimizer.schedulers.searchers.searcher._to_tuple")
+    rt = returns_of(tt)
+    okt = len(rt) == 1 and not any(isinstance(y, ast.Call) and fn_name(y) == "get" for y in ast.walk(rt[0].value))
+    rep.put(okt, "S3", "agreement", "_to_tuple reads every key of the (complete) configuration", tt, rt[0] if rt else None, "",
+            "`.get(k)` makes an incomplete entry comparable: missing values compare as None instead of the imputed default")
     dv = P.func("syne_tune.optimizer.schedulers.searchers.searcher._default_config_value")
     src_param = dv.params[0]
     bad = tainted_returns(dv, lambda e: isinstance(e, ast.Subscript) and isinstance(e.value, ast.Name) and e.value.id == src_param,
